@@ -42,6 +42,7 @@ type poolSpec struct {
 	ExtBlockMs     uint64 `json:"ext_block_ms"`
 	FxBlockMs      uint64 `json:"fx_block_ms"`
 	ExtCalls       bool   `json:"ext_calls"`
+	Flood          bool   `json:"flood"` // start with more pooled transfers of one token than a batch takes
 }
 
 func poolCases(seed uint64, tier, prop string) []core.Case {
@@ -55,7 +56,7 @@ func poolCases(seed uint64, tier, prop string) []core.Case {
 	for i := 0; i < n; i++ {
 		s := poolSpec{Seed: rng.Uint64(), Chains: combos[i%len(combos)], Steps: 150 + rng.IntN(150), N: 3 + rng.IntN(3),
 			BatchTimeoutMs: uint64(60_000 + rng.IntN(600_000)), CallTimeoutMs: uint64(3_600_001 + rng.IntN(3_600_000)),
-			ExtBlockMs: uint64(1000 + rng.IntN(14000)), FxBlockMs: uint64(1000 + rng.IntN(8000)), ExtCalls: i%4 == 3}
+			ExtBlockMs: uint64(1000 + rng.IntN(14000)), FxBlockMs: uint64(1000 + rng.IntN(8000)), ExtCalls: i%4 == 3, Flood: i%13 == 6}
 		if i%5 == 2 || i%5 == 4 {
 			// fxcore's clock runs far ahead of the external chain: the projected external height, and with it
 			// the timeouts of new batches and calls, overshoots between observations, so timeouts are not
@@ -71,8 +72,8 @@ func poolCases(seed uint64, tier, prop string) []core.Case {
 
 type extChain struct {
 	lastBatchNonce map[string]uint64 // token -> last executed batch nonce
-	callDone       map[uint64]bool // executed successfully on the external chain
-	callResulted   map[uint64]bool // the external chain emitted a result event (success or failure)
+	callDone       map[uint64]bool   // executed successfully on the external chain
+	callResulted   map[uint64]bool   // the external chain emitted a result event (success or failure)
 }
 
 // ---- reference model of one outgoing transfer ----------------------------------------
@@ -127,6 +128,7 @@ type poolRun struct {
 	batchExecutedExt    map[string]map[uint64]bool
 	batchTimeout        map[string]map[uint64]uint64
 	releasedByExecution bool
+	fxSupply            sdkmath.Int
 	parkedResults       map[string][]parkedResult
 	forceToken          *fix.WToken
 	forceFee            int64
@@ -283,6 +285,18 @@ type delta struct {
 // group with what the operation explicitly moves.
 func (r *poolRun) expectDeltas(op string, before snap, want []delta) {
 	kind := strings.SplitN(op, " ", 2)[0]
+	if r.c04 {
+		// the native coin is neither minted nor burnt by bridging it (it is locked and released); with zero
+		// inflation and zero gas price its total supply is a constant of the whole history
+		sup := r.c.Supply(r.c.Ctx, fxtypes.DefaultDenom)
+		if r.fxSupply.IsNil() {
+			r.fxSupply = sup
+		} else if !sup.Equal(r.fxSupply) {
+			r.res.Violate("C04/native-coin-supply-changed/"+kind, "%s: the total supply of %s went from %s to %s", op, fxtypes.DefaultDenom, r.fxSupply, sup)
+			r.fxSupply = sup
+		}
+		r.res.Count("native_supply_checks", 1)
+	}
 	// C05 speaks of who pays what when a transfer is queued, its fee raised, or it is cancelled
 	c05op := r.c05 && (kind == "increase-fee" || kind == "cancel" || kind == "send")
 	if !r.c04 && !c05op {
